@@ -17,6 +17,7 @@ C04.h unlocking is a function of (key file, password) only: rustic_core keeps no
 import re
 from rules.common import *
 
+TECHNIQUE = ("static analysis over rustc MIR: backward data provenance of every byte buffer handed to write_bytes (must derive from AEAD output), evaluated RepoFile::ENCRYPTED constants, nonce freshness through helpers, authenticate-before-release ordering, read-error propagation evaluated under 'result is Err', process-wide / thread-local state rule")
 LEVEL = "other"
 EXPLANATION = (
     "Provenance (backward data dependence over MIR) of the bytes handed to the storage layer, evaluated constants of the "
